@@ -16,7 +16,7 @@ use sos_core::commit::{CommitTree, Comparison};
 pub const META: PropertyMeta = PropertyMeta {
     id: "C08",
     level: "exploration",
-    rule: "exhaustive: every ordered pair (A,B) of leaf sequences over a 3-letter alphabet with 1<=|A|,|B|<=N (N=5 quick, 6 thorough), each checked for the head proof and for a single-leaf proof at every index of B; random: pairs up to length 300 built as common prefix + divergent suffixes + re-converging equal leaves at equal indices, with head, single- and multi-leaf proofs; scan: ancestor search through the real AutoMerge::scan_proofs over a wire-encoded direct client. Non-trivial = the pair has an equal leaf at an equal index under different prefixes, or |A| != |B| with an agreeing proven index, or B a proper prefix of A. Distinct = distinct (A,B) letter strings.",
+    rule: "exhaustive: every ordered pair (A,B) of leaf sequences over a 3-letter alphabet with 1<=|A|,|B|<=N (N=5 quick, 6 thorough), each checked for the head proof and for a single-leaf proof at every index of B; random: pairs up to length 300 built as common prefix + divergent suffixes + re-converging equal leaves at equal indices, with head, single- and multi-leaf proofs; scan: ancestor search through the real AutoMerge::scan_proofs over a wire-encoded direct client; the server-side divergent suffix has 0..5, 30..39 or 62..71 events so that the common ancestor lies on the first, second or third page of 32 proofs; the ancestor returned must be a common prefix point and must be found whenever the logs share a prefix. Non-trivial = the pair has an equal leaf at an equal index under different prefixes, or |A| != |B| with an agreeing proven index, or B a proper prefix of A. Distinct = distinct (A,B) letter strings.",
     assumptions: &[
         "leaf hashes are SHA-256 of distinct letters (collision freedom of SHA-256 assumed)",
         "rs_merkle proof generation for the *sender's* tree is trusted; only the receiver-side decision is under test",
